@@ -43,7 +43,26 @@ RULE = ('state: batch B owned by alice in billing project bp1 (members alice, bo
         'granted_then_retry (refused, added, same user same batch again), the same for batch creation (revoked/granted_then_create) '
         'and billing reads (_then_bpread), deactivated/reactivated_then_retry. Plus a systematic pass: every such route x {owner, '
         'member} x {0 s, 3 s}: granted, removed, again, re-added, again. Non-trivial history: at least one request whose required answer '
-        'differs from the answer the same user got for the same batch / project earlier in the history.')
+        'differs from the answer the same user got for the same batch / project earlier in the history, or a member and a non-member of '
+        'one batch in flight together. '
+        'REQUESTS IN FLIGHT AT ONCE (step kind par, generated-concurrency mode as World.op_par does it for the SQL-level checks): two or '
+        'three requests of a history run as concurrent asyncio tasks on the world\'s virtual loop; each first yields a generated number of '
+        'times (who arrives first), then every SQL statement any of them sends is a schedule point at which a generated schedule (list of '
+        'ints 0-4 = number of sleep(0) yields) decides who goes next. Groups are laid out by construction (membership arranged first): 4 '
+        'in 10 a member and a non-member on the SAME batch (read / cancel / delete in any combination; also right after a revocation: '
+        'the revoked user and a member), two different members, the same user twice, different batches, callers who must all be refused '
+        '(mutations, owner-only update, administration), a membership change by the developer racing with a request of that user; 1 in 3 '
+        'groups gets a third request (any batch route, owner-only update, billing read, list, administration attempt, batch creation). '
+        'Every answer is judged exactly like a sequential one against the rows as they were when the group started - none of the '
+        'sub-requests changes billing_project_users or batches.billing_project/user except the racing membership change (requests of '
+        'that user: either serial order accepted) and a member\'s DELETE of the batch (404 / "does not exist" accepted for the others on '
+        'that batch); a refused caller must have sent no write statement (per-request SQL log carried in the task context) and, when no '
+        'other request of the group wrote, nothing may have changed. Systematic part: every billing_project_users_only route x {owner, '
+        'member} with the stranger in flight on the same batch: member first, stranger first, stranger held at its first statement, '
+        'member delayed. Classes: two_/three_requests_in_flight, same_batch_different_users_in_flight, '
+        'same_batch_member_and_nonmember_in_flight, same_batch_same_user_in_flight, different_batches_in_flight, '
+        'in_flight_all_must_be_refused, in_flight_with_allowed_mutation, in_flight_membership_change_racing, in_flight_delete_racing, '
+        'in_flight_statements_interleaved (the statements of the requests really alternated).')
 ASSUMPTIONS = [
     'the auth service returns userdata only for active users (its SQL filters state = active); the batch side is exercised with state '
     '"inactive" userdata (the one state gear.auth rejects) and with 401 answers',
@@ -60,9 +79,13 @@ ASSUMPTIONS = [
     'of the world, like time_msecs; a memo that keeps its own wall-clock time source is only exercised at age 0',
     'histories: a 403 that carries its own reason on a request with a deleted batch (e.g. cancelling it: "Job Group (1, 0) does not '
     'exist") is a business-rule answer, not a refusal of the member',
+    'requests in flight at once: interleavings are explored at SQL statement boundaries (and at the arrival of each request) of one '
+    'front-end process; transactions serialise from their first write or locking read (minimysql gate) as InnoDB locking would make them; '
+    'the auth service answers without delay, so a request is never suspended between authentication and its first statement',
 ]
 TRUSTED = ['vlib/batchsim/httpapp.py (app assembly, fake auth service, mocked requests)', 'vlib/minimysql', 'route classification predicates in checks/c14.py',
-           'history interpreter and per-step expectation in checks/c14.py (run_history: reads billing_project_users / batches rows before each request)']
+           'history interpreter and per-step expectation in checks/c14.py (run_history: reads billing_project_users / batches rows before each request)',
+           'HttpWorld.request_par (concurrent tasks, schedule hook at every SQL statement, per-request SQL log by task context)']
 
 MISSING_BATCH = 987654
 MEMBERS = {'bp1': {'alice', 'bob', 'ina'}, 'bp2': {'alice'}, 'bp3': {'carol'}}
@@ -561,6 +584,19 @@ def run_one(ctx, case, hname=None, generated=False):
 #   ['state', user, 'inactive'|'active']       the auth service's answer for the user's session changes
 #   ['tick', ms]                               virtual time passes (time_msecs and the monotonic clock of gear's caches)
 #   ['list', user, tmpl] / ['bpread', user, bp]
+#   ['par', [sub, sub(, sub)], sched, starts]  two or three of the request steps above IN FLIGHT AT ONCE: each runs as its own asyncio task on the
+#                                              world's virtual loop (HttpWorld.request_par); request i first yields starts[i] times (who arrives
+#                                              first), then every SQL statement any of them sends is a schedule point at which `sched` (small
+#                                              ints = number of `await asyncio.sleep(0)`) decides who goes next, exactly as World.op_par does for
+#                                              the SQL-level checks.  Every answer is judged like a sequential one, against the rows as they
+#                                              were when the group started: whether a caller must be let in depends on billing_project_users and
+#                                              batches.billing_project / user only, which none of the sub-requests changes - except a membership
+#                                              change by the developer (then the requests of THAT user are accepted either way = either serial
+#                                              order) and a DELETE of the batch by a member (then a 404 / "does not exist" for the other requests
+#                                              on that batch is accepted = the order in which the delete came first).  What changed during the group
+#                                              is attributed to a refused request only if no other request of the group sent a write statement;
+#                                              the statements a request sent itself are always known (per-request SQL log carried in the task
+#                                              context), so "a refused caller runs no write SQL" is judged for every refused caller.
 # After every request the expectation is computed from the database rows AS THEY ARE at that moment (billing_project_users, batches) and
 # from the auth service's current answer; nothing is remembered from earlier requests except to label the shape of the history.
 H_USERS = ['alice', 'bob', 'carol', 'dave', 'ina']
@@ -576,6 +612,7 @@ H_LISTS = ['/batches', '/api/v1alpha/batches', '/api/v2alpha/batches', '/api/v1a
 H_CREATE = ['/api/v1alpha/batches/create', '/api/v1alpha/batches/create-fast']
 H_OWN = '/api/v1alpha/batches/{batch_id}/updates/create'
 H_BPREAD = '/api/v1alpha/billing_projects/{billing_project}'
+PAR_KINDS = ('req', 'own', 'create', 'bpread', 'list', 'try_admin', 'member')
 
 
 class _Clock:
@@ -677,6 +714,7 @@ def run_history(ctx, case):
     member_t = {}                     # (bp, user) -> virtual ms of the last actual membership change
     classes, fails, trace = set(), [], []
     shapes = set()
+    inflight_diff = []                # steps at which a member and a non-member of one batch were in flight together
     evts = ('cancel_batch_state_changed', 'delete_batch_state_changed')
 
     def observe():
@@ -686,7 +724,9 @@ def run_history(ctx, case):
             w.app[k].clear()
         return sn, sd, dict(sd, events={k: False for k in sd['events']})
 
-    def send(user, cookie, method, tmpl, path, variant=None, form=None):
+    def request_of(P):
+        """the HTTP request of a prepared step -> dict(method, path, headers, body, session)"""
+        user, cookie, method, tmpl, form = P['user'], P['cookie'], P['method'], P['tmpl'], P['form']
         body, ctype = b'', None
         if method not in SAFE:
             if form is not None or not tmpl.startswith('/api/'):
@@ -695,7 +735,7 @@ def run_history(ctx, case):
                     f['_csrf'] = 'csrf-tok'
                 body, ctype = urlencode(f).encode(), 'application/x-www-form-urlencoded'
             else:
-                body, ctype = ctx.body_for(method, tmpl, variant or {}, None)
+                body, ctype = ctx.body_for(method, tmpl, P['variant'] or {}, None)
         h, session = {}, None
         if ctype:
             h['Content-Type'] = ctype
@@ -706,9 +746,177 @@ def run_history(ctx, case):
                 h['X-CSRF-Token'] = 'csrf-tok'
         else:
             h['Authorization'] = 'Bearer tok-' + user
-        resp = loop.run_until_complete(w.request(method, path, headers=h, body=body, session=session))
+        return dict(method=method, path=P['path'], headers=h, body=body, session=session)
+
+    def prepare(step, mem, bat):
+        """who, what, and what the statement says about it right now (mem / bat: the membership and batch rows as they are)
+        -> dict | None (the route no longer exists)"""
+        kind = step[0]
+        P = dict(kind=kind, cookie=0, variant=None, form=None, bind_desc='', skey=None, bp_of=None, alive=True, no_404=False, bid=None,
+                 bp=None, target=None)
+        if kind == 'req':
+            _, user, (method, tmpl), ref, cookie = step
+            bid = batches[ref] if 0 <= ref < len(batches) else None
+            row = bat.get(bid) if bid is not None else None
+            path = ctx.path_for(tmpl, {'batch_id': bid if row is not None else 'missing', 'job_id': 1, 'job_group_id': 0})
+            P['cookie'] = cookie
+            if row is None:
+                mexp = 'deny_missing'
+            else:
+                P['bid'] = bid
+                P['bp_of'] = bp_of = row['billing_project']
+                mexp = 'allow_member' if (bp_of, user) in mem else 'deny_nonmember'
+                P['skey'] = (user, 'retry', bid)
+                P['alive'] = alive = not row['deleted']
+                P['no_404'] = alive and (method, tmpl) in CORE_NO_404 and '{job_id}' not in tmpl and '{job_group_id}' not in tmpl
+        elif kind == 'own':
+            _, user, ref = step
+            method, tmpl = 'POST', H_OWN
+            bid = batches[ref] if 0 <= ref < len(batches) else None
+            row = bat.get(bid) if bid is not None else None
+            path = ctx.path_for(tmpl, {'batch_id': bid if row is not None else 'missing'})
+            P['variant'] = {'token': 'fresh'}
+            if row is None:
+                mexp = 'deny_missing'
+            else:
+                P['bid'] = bid
+                owner, member = row['user'] == user, (row['billing_project'], user) in mem
+                P['alive'] = not row['deleted']
+                mexp = ('allow_owner' if member else 'either') if owner else ('deny_owner_only' if member else 'deny_nonmember_owner_only')
+        elif kind == 'create':
+            _, user, bp, fast = step
+            method, tmpl = 'POST', H_CREATE[1 if fast else 0]
+            path = tmpl
+            P['variant'] = {'bp': bp, 'token': 'fresh'}
+            mexp = 'allow_create' if (bp, user) in mem else 'deny_bp'
+            P['skey'], P['bp_of'] = (user, 'create', bp), bp
+        elif kind in ('member', 'try_admin'):
+            if kind == 'member':
+                _, op, bp, target, via = step
+                user, ui = ('auth' if via == 'api_auth' else 'dev'), int(via == 'ui_dev')
+                mexp = 'allow_admin'
+            else:
+                _, user, op, bp, target, ui = step
+                mexp = 'deny_admin'
+            method, tmpl = 'POST', H_ADMIN_ROUTES[(op, int(bool(ui)))]
+            P['cookie'] = int(bool(ui))
+            path = ctx.path_for(tmpl, {'billing_project': bp, 'user': target})
+            if ui:
+                P['form'] = {'user': target} if op == 'add' else {}
+            P['bind_desc'] = f' ({op} {target})'
+            P['bp'], P['target'] = bp, target
+        elif kind == 'list':
+            _, user, tmpl = step
+            method, path = 'GET', tmpl
+            mexp = 'allow_authenticated'
+        elif kind == 'bpread':
+            _, user, bp = step
+            method, tmpl = 'GET', H_BPREAD
+            path = ctx.path_for(tmpl, {'billing_project': bp})
+            mexp = 'allow_bp_read' if (bp, user) in mem else 'deny_bp_read'
+            P['skey'], P['bp_of'] = (user, 'bpread', bp), bp
+        else:
+            raise ValueError(f'unknown history step {step}')
+        hname = hnames.get((method, tmpl))
+        if hname is None:
+            return None
+        P.update(user=user, method=method, tmpl=tmpl, path=path, mexp=mexp, hname=hname)
+        return P
+
+    def assess(k, step, P, resp, changed, side_changed, now, mem, bat, snap2, ctxt='', in_group=False):
+        """the statement applied to one answered request -> failures; updates classes / shape labels / the batch refs"""
+        kind, user, method, tmpl, path, hname = P['kind'], P['user'], P['method'], P['tmpl'], P['path'], P['hname']
+        mexp, skey, bp_of, cookie = P['mexp'], P['skey'], P['bp_of'], P['cookie']
         resp['path'] = path
-        return resp
+        st = resp['status']
+
+        # ---- the auth service's answer may be up to `grace` old (documented userdata cache); membership may not
+        a_state, a_t = auth[user]
+        in_grace = a_t is not None and now - a_t < grace
+        if in_grace:
+            looks_inactive = st == 403 and 'inactive' in str(resp.get('text'))
+            eff_state = 'inactive' if looks_inactive else 'active'
+        else:
+            eff_state = a_state
+        exp = 'deny_inactive' if eff_state == 'inactive' else mexp
+        if a_t is not None and user in H_USERS:
+            lab = ('deactivated' if a_state == 'inactive' else 'reactivated') + '_then_retry'
+            shapes.add(lab)
+            classes.add(lab + ('_within_cache_lifetime' if in_grace else '_after_cache_lifetime'))
+
+        # ---- shape of the history for this (user, target): did the answer have to change since the last time?
+        shape = None
+        if skey is not None and a_state == 'active' and not in_grace and mexp != 'either':
+            m_now = 'allow' if mexp.startswith('allow') else 'deny'
+            prev = last.get(skey)
+            if prev is not None and prev['m'] != m_now and prev['ok'] == (prev['m'] == 'allow'):
+                shape = ('revoked' if m_now == 'deny' else 'granted') + '_then_' + skey[1]
+                shapes.add(shape)
+                classes.add(shape)
+                dt = now - member_t.get((bp_of, user), now)
+                classes.add(shape + ('_immediately' if dt == 0 else '_within_10s' if dt < 10000 else '_after_10s'))
+                if method not in SAFE:
+                    classes.add(shape + '_mutating_request')
+                if in_group:
+                    classes.add(shape + '_in_flight')
+            elif prev is not None and prev['m'] == m_now:
+                classes.add('same_answer_again')
+            last[skey] = dict(m=m_now, ok=st is not None and st < 400 and not is_login_redirect(resp))
+
+        desc = (f"step {k} {step}: {method} {path}{P['bind_desc']} as {user}{' (cookie)' if cookie else ''} -> status {st}"
+                f"{' location ' + str(resp.get('location')) if resp.get('location') else ''}{' exc ' + resp['exc'] if resp.get('exc') else ''}"
+                f"{' NotSupported ' + resp['notsupported'] if resp.get('notsupported') else ''}; the rows at that moment say {exp}")
+        if bp_of:
+            desc += f" (members of {bp_of}: {sorted(u for b, u in mem if b == bp_of)})"
+        desc += ctxt
+        if not in_group:
+            trace.append(f'{k}: {method} {path}{P["bind_desc"]} as {user} -> {st}' + (f' ({len(changed)} tables changed)' if changed else ''))
+        classes.update((exp, f'step_{kind}', f'class_{route_class(method, tmpl)}'))
+        if in_group:
+            classes.add(f'in_flight_{exp}')
+        if exp.startswith('deny_'):
+            sig = None
+            if shape is not None and shape.startswith('revoked'):
+                sig = 'revoked-member-still-allowed'
+            c2, f2 = _h_status_deny(exp, resp, changed, side_changed, hname, desc, sig)
+        elif exp == 'either':
+            c2, f2 = set(), []
+        else:
+            sig = 'added-member-still-refused' if shape is not None and shape.startswith('granted') else None
+            who = {'allow_admin': user, 'allow_owner': 'owner', 'allow_authenticated': 'user'}.get(exp, 'member')
+            c2, f2 = _h_status_allow(exp, resp, hname, desc, who, P['alive'], P['no_404'], sig)
+            if kind == 'list' and resp.get('json') is not None and not f2 and not P.get('racing'):
+                j = resp['json']
+                if tmpl == '/api/v1alpha/billing_projects':
+                    shown = [x.get('billing_project') for x in j if isinstance(x, dict)] if isinstance(j, list) else []
+                    leak = [b for b in shown if (b, user) not in mem]
+                    if leak:
+                        f2.append((f'list-leaks-billing-project:{hname}', 'billing information is visible only to members of the billing project, '
+                                   'developers and the auth service', f'{desc}; response lists {leak}'))
+                else:
+                    ids = set()
+                    if isinstance(j, dict):
+                        ids.update(b.get('id') for b in (j.get('batches') or []) if isinstance(b, dict))
+                        ids.update(j.get('batch_ids') or [])
+                    leak = sorted(i for i in ids if i in bat and (bat[i]['billing_project'], user) not in mem)
+                    if leak:
+                        f2.append((f'list-leaks-batch:{hname}', "a user can read a batch only if they belong to the batch's billing project",
+                                   f'{desc}; response lists batch(es) {leak}'))
+        classes.update(c2)
+        if kind == 'create':
+            new_ids = sorted(r['id'] for r in snap2['batches'] if r['id'] not in bat)
+            if in_group:       # several creations may have been in flight: the answer names its batch
+                mine = resp['json'].get('id') if isinstance(resp.get('json'), dict) else None
+                new_ids = [i for i in new_ids if i == mine]
+            batches.append(new_ids[0] if len(new_ids) == 1 and st is not None and st < 400 else None)
+        if kind == 'member':
+            bp, target = P['bp'], P['target']
+            was = (bp, target) in mem
+            is_now = (bp, target) in {(r['billing_project'], r['user_cs']) for r in snap2['billing_project_users']}
+            if was != is_now:
+                member_t[(bp, target)] = now
+                classes.add('membership_changed_by_admin_route')
+        return f2
 
     snap, _, side = observe()
     for k, step in enumerate(case['steps']):
@@ -744,156 +952,101 @@ def run_history(ctx, case):
             trace.append(f'{k}: {op} {user} {"to" if op == "add" else "from"} {bp} (database)')
             continue
 
+        if kind == 'par':
+            # ---- two or three requests IN FLIGHT AT ONCE (see the comment block above run_history)
+            subs = [list(x) for x in step[1] if x and x[0] in PAR_KINDS][:3]
+            sched = [int(x) for x in (step[2] if len(step) > 2 else [])][:12]
+            starts = [int(x) for x in (step[3] if len(step) > 3 else [])]
+            Ps = []
+            for sub in subs:
+                P = prepare(sub, mem, bat)
+                if P is None:
+                    classes.add('route_gone_skipped')
+                else:
+                    Ps.append((sub, P))
+            if not Ps:
+                continue
+            # either serial order is accepted where one of the requests changes what another one's answer depends on
+            deleters = {}
+            for sub, P in Ps:
+                if P['bid'] is not None and not P['mexp'].startswith('deny_') and (P['method'] == 'DELETE' or P['tmpl'].endswith('/delete')):
+                    deleters.setdefault(P['bid'], []).append(P)
+            racing = [(P['bp'], P['target']) for sub, P in Ps if P['kind'] == 'member']
+            for sub, P in Ps:
+                d = deleters.get(P['bid']) if P['bid'] is not None else None
+                if d and (len(d) > 1 or d[0] is not P):
+                    P['alive'], P['no_404'] = False, False
+                if racing and P['kind'] != 'member' and any(P['user'] == t for _bp, t in racing):
+                    P['mexp'], P['racing'] = 'either', True
+            resps, n_points = loop.run_until_complete(w.request_par([request_of(P) for sub, P in Ps], sched, starts))
+            snap2, side2, side_next = observe()
+            changed = sorted(t for t in snap2 if snap2[t] != snap[t])
+            side_changed = sorted(x for x in side2 if side2[x] != side[x])
+            wrote = [any(ph == 'statement' and not _SELECT.match(q) for ph, q in r['sql']) for r in resps]
+            group = '; '.join(f"{P['method']} {P['path']} as {P['user']} -> {r['status']}" for (sub, P), r in zip(Ps, resps))
+            trace.append(f'{k}: in flight at once [{group}] (arrival delays {starts}, yields per statement {sched})')
+            n = len(Ps)
+            if n >= 2:
+                classes.update(('requests_in_flight', {2: 'two', 3: 'three'}[n] + '_requests_in_flight'))
+                orders = sorted((o, i) for i, r in enumerate(resps) for o in r.get('order') or [])
+                runs = sum(1 for a, b in zip(orders, orders[1:]) if a[1] != b[1]) + 1 if orders else 0
+                classes.add('in_flight_statements_interleaved' if runs > len({i for _o, i in orders}) else 'in_flight_statements_back_to_back')
+                by_b = {}
+                for sub, P in Ps:
+                    if P['bid'] is not None:
+                        by_b.setdefault(P['bid'], []).append(P)
+                for bid, ps in by_b.items():
+                    if len({P['user'] for P in ps}) >= 2:
+                        classes.add('same_batch_different_users_in_flight')
+                        ms = {P['mexp'].split('_')[0] for P in ps if P['mexp'] != 'either'}
+                        if ms == {'allow', 'deny'}:
+                            classes.add('same_batch_member_and_nonmember_in_flight')
+                            inflight_diff.append(k)
+                        if any(P['method'] not in SAFE for P in ps):
+                            classes.add('same_batch_different_users_in_flight_with_mutating_request')
+                    if len(ps) > len({P['user'] for P in ps}):
+                        classes.add('same_batch_same_user_in_flight')
+                if len(by_b) >= 2:
+                    classes.add('different_batches_in_flight')
+                if all(P['mexp'].startswith('deny_') for sub, P in Ps):
+                    classes.add('in_flight_all_must_be_refused')
+                elif any(not P['mexp'].startswith('deny_') and P['method'] not in SAFE for sub, P in Ps):
+                    classes.add('in_flight_with_allowed_mutation')
+                else:
+                    classes.add('in_flight_allowed_reads_only')
+                if racing:
+                    classes.add('in_flight_membership_change_racing')
+                if deleters:
+                    classes.add('in_flight_delete_racing')
+            f2 = []
+            for i, ((sub, P), resp) in enumerate(zip(Ps, resps)):
+                # what changed is laid at a refused request's door only when no other request of the group sent a write statement;
+                # its own statements are always its own (per-request SQL log)
+                mine = not any(wrote[j] for j in range(n) if j != i)
+                f2 = assess(k, sub, P, resp, changed if mine else [], side_changed if mine else [], now, mem, bat, snap2,
+                            f' [in flight together with: {group}; arrival delays {starts}, yields per statement {sched}]' if n >= 2 else '',
+                            in_group=True)
+                if f2:
+                    break
+            snap, side = snap2, side_next
+            if f2:
+                hist_txt = ' | '.join(trace[-12:])
+                fails.extend((s, c, f'{msg}. History: {hist_txt}') for s, c, msg in f2)
+                break
+            if any(r.get('notsupported') for r in resps):
+                break
+            continue
+
         # ---- a request: who, what, and what the statement says about it right now
-        cookie, variant, form, bind_desc = 0, None, None, ''
-        skey = None           # (user, kind, target) for shape labels
-        bp_of = None
-        alive, no_404 = True, False
-        if kind == 'req':
-            _, user, (method, tmpl), ref, cookie = step
-            bid = batches[ref] if 0 <= ref < len(batches) else None
-            row = bat.get(bid) if bid is not None else None
-            path = ctx.path_for(tmpl, {'batch_id': bid if row is not None else 'missing', 'job_id': 1, 'job_group_id': 0})
-            if row is None:
-                mexp = 'deny_missing'
-            else:
-                bp_of = row['billing_project']
-                mexp = 'allow_member' if (bp_of, user) in mem else 'deny_nonmember'
-                skey = (user, 'retry', bid)
-                alive = not row['deleted']
-                no_404 = alive and (method, tmpl) in CORE_NO_404 and '{job_id}' not in tmpl and '{job_group_id}' not in tmpl
-        elif kind == 'own':
-            _, user, ref = step
-            method, tmpl = 'POST', H_OWN
-            bid = batches[ref] if 0 <= ref < len(batches) else None
-            row = bat.get(bid) if bid is not None else None
-            path = ctx.path_for(tmpl, {'batch_id': bid if row is not None else 'missing'})
-            variant = {'token': 'fresh'}
-            if row is None:
-                mexp = 'deny_missing'
-            else:
-                owner, member = row['user'] == user, (row['billing_project'], user) in mem
-                alive = not row['deleted']
-                mexp = ('allow_owner' if member else 'either') if owner else ('deny_owner_only' if member else 'deny_nonmember_owner_only')
-        elif kind == 'create':
-            _, user, bp, fast = step
-            method, tmpl = 'POST', H_CREATE[1 if fast else 0]
-            path = tmpl
-            variant = {'bp': bp, 'token': 'fresh'}
-            mexp = 'allow_create' if (bp, user) in mem else 'deny_bp'
-            skey, bp_of = (user, 'create', bp), bp
-        elif kind in ('member', 'try_admin'):
-            if kind == 'member':
-                _, op, bp, target, via = step
-                user, ui = ('auth' if via == 'api_auth' else 'dev'), int(via == 'ui_dev')
-                mexp = 'allow_admin'
-            else:
-                _, user, op, bp, target, ui = step
-                mexp = 'deny_admin'
-            method, tmpl = 'POST', H_ADMIN_ROUTES[(op, int(bool(ui)))]
-            cookie = int(bool(ui))
-            path = ctx.path_for(tmpl, {'billing_project': bp, 'user': target})
-            if ui:
-                form = {'user': target} if op == 'add' else {}
-            bind_desc = f' ({op} {target})'
-        elif kind == 'list':
-            _, user, tmpl = step
-            method, path = 'GET', tmpl
-            mexp = 'allow_authenticated'
-        elif kind == 'bpread':
-            _, user, bp = step
-            method, tmpl = 'GET', H_BPREAD
-            path = ctx.path_for(tmpl, {'billing_project': bp})
-            mexp = 'allow_bp_read' if (bp, user) in mem else 'deny_bp_read'
-            skey, bp_of = (user, 'bpread', bp), bp
-        else:
-            raise ValueError(f'unknown history step {step}')
-        hname = hnames.get((method, tmpl))
-        if hname is None:
+        P = prepare(step, mem, bat)
+        if P is None:
             classes.add('route_gone_skipped')
             continue
-        resp = send(user, cookie, method, tmpl, path, variant, form)
+        resp = loop.run_until_complete(w.request(**request_of(P)))
         snap2, side2, side_next = observe()
         changed = sorted(t for t in snap2 if snap2[t] != snap[t])
         side_changed = sorted(x for x in side2 if side2[x] != side[x])
-        st = resp['status']
-
-        # ---- the auth service's answer may be up to `grace` old (documented userdata cache); membership may not
-        a_state, a_t = auth[user]
-        in_grace = a_t is not None and now - a_t < grace
-        if in_grace:
-            looks_inactive = st == 403 and 'inactive' in str(resp.get('text'))
-            eff_state = 'inactive' if looks_inactive else 'active'
-        else:
-            eff_state = a_state
-        exp = 'deny_inactive' if eff_state == 'inactive' else mexp
-        if a_t is not None and user in H_USERS:
-            lab = ('deactivated' if a_state == 'inactive' else 'reactivated') + '_then_retry'
-            shapes.add(lab)
-            classes.add(lab + ('_within_cache_lifetime' if in_grace else '_after_cache_lifetime'))
-
-        # ---- shape of the history for this (user, target): did the answer have to change since the last time?
-        shape = None
-        if skey is not None and a_state == 'active' and not in_grace and mexp != 'either':
-            m_now = 'allow' if mexp.startswith('allow') else 'deny'
-            prev = last.get(skey)
-            if prev is not None and prev['m'] != m_now and prev['ok'] == (prev['m'] == 'allow'):
-                shape = ('revoked' if m_now == 'deny' else 'granted') + '_then_' + skey[1]
-                shapes.add(shape)
-                classes.add(shape)
-                dt = now - member_t.get((bp_of, user), now)
-                classes.add(shape + ('_immediately' if dt == 0 else '_within_10s' if dt < 10000 else '_after_10s'))
-                if method not in SAFE:
-                    classes.add(shape + '_mutating_request')
-            elif prev is not None and prev['m'] == m_now:
-                classes.add('same_answer_again')
-            last[skey] = dict(m=m_now, ok=st is not None and st < 400 and not is_login_redirect(resp))
-
-        desc = (f"step {k} {step}: {method} {path}{bind_desc} as {user}{' (cookie)' if cookie else ''} -> status {st}"
-                f"{' location ' + str(resp.get('location')) if resp.get('location') else ''}{' exc ' + resp['exc'] if resp.get('exc') else ''}"
-                f"{' NotSupported ' + resp['notsupported'] if resp.get('notsupported') else ''}; the rows at that moment say {exp}")
-        if bp_of:
-            desc += f" (members of {bp_of}: {sorted(u for b, u in mem if b == bp_of)})"
-        trace.append(f'{k}: {method} {path}{bind_desc} as {user} -> {st}' + (f' ({len(changed)} tables changed)' if changed else ''))
-        classes.update((exp, f'step_{kind}', f'class_{route_class(method, tmpl)}'))
-        if exp.startswith('deny_'):
-            sig = None
-            if shape is not None and shape.startswith('revoked'):
-                sig = 'revoked-member-still-allowed'
-            c2, f2 = _h_status_deny(exp, resp, changed, side_changed, hname, desc, sig)
-        elif exp == 'either':
-            c2, f2 = set(), []
-        else:
-            sig = 'added-member-still-refused' if shape is not None and shape.startswith('granted') else None
-            who = {'allow_admin': user, 'allow_owner': 'owner', 'allow_authenticated': 'user'}.get(exp, 'member')
-            c2, f2 = _h_status_allow(exp, resp, hname, desc, who, alive, no_404, sig)
-            if kind == 'list' and resp.get('json') is not None and not f2:
-                j = resp['json']
-                if tmpl == '/api/v1alpha/billing_projects':
-                    shown = [x.get('billing_project') for x in j if isinstance(x, dict)] if isinstance(j, list) else []
-                    leak = [b for b in shown if (b, user) not in mem]
-                    if leak:
-                        f2.append((f'list-leaks-billing-project:{hname}', 'billing information is visible only to members of the billing project, '
-                                   'developers and the auth service', f'{desc}; response lists {leak}'))
-                else:
-                    ids = set()
-                    if isinstance(j, dict):
-                        ids.update(b.get('id') for b in (j.get('batches') or []) if isinstance(b, dict))
-                        ids.update(j.get('batch_ids') or [])
-                    leak = sorted(i for i in ids if i in bat and (bat[i]['billing_project'], user) not in mem)
-                    if leak:
-                        f2.append((f'list-leaks-batch:{hname}', "a user can read a batch only if they belong to the batch's billing project",
-                                   f'{desc}; response lists batch(es) {leak}'))
-        classes |= c2
-        if kind == 'create':
-            new_ids = sorted(r['id'] for r in snap2['batches'] if r['id'] not in bat)
-            batches.append(new_ids[0] if len(new_ids) == 1 and st is not None and st < 400 else None)
-        if kind == 'member':
-            was = (bp, target) in mem
-            is_now = (bp, target) in {(r['billing_project'], r['user_cs']) for r in snap2['billing_project_users']}
-            if was != is_now:
-                member_t[(bp, target)] = now
-                classes.add('membership_changed_by_admin_route')
+        f2 = assess(k, step, P, resp, changed, side_changed, now, mem, bat, snap2)
         snap, side = snap2, side_next
         if f2:
             hist_txt = ' | '.join(trace[-12:])
@@ -901,7 +1054,7 @@ def run_history(ctx, case):
             break
         if resp.get('notsupported'):
             break         # the connection state after an unsupported statement is not trusted: the history ends here
-    nontrivial = bool(shapes)
+    nontrivial = bool(shapes) or bool(inflight_diff)
     if not shapes:
         classes.add('no_answer_had_to_change')
     classes.add('kind_history')
@@ -923,6 +1076,21 @@ def enum_histories(routes):
                 steps = [r, ['member', 'remove', 'bp1', user, vias[n % 4]]] + wait + [r, ['member', 'add', 'bp1', user, vias[(n + 1) % 4]]] + wait + [r]
                 n += 1
                 yield dict(kind='hist', steps=steps)
+
+
+def enum_par_histories(routes):
+    """systematic concurrent part: every billing_project_users_only route: a member (alice = owner / bob) and the stranger carol in
+    flight at once on batch B - the member arriving first, the stranger arriving first, and both held at their first statement"""
+    n = 0
+    for m, t, h in routes:
+        if route_class(m, t) != 'batch':
+            continue
+        for user in ('alice', 'bob'):
+            a, c = ['req', user, [m, t], 0, n % 2], ['req', 'carol', [m, t], 0, (n // 2) % 2]
+            steps = [['par', [a, c], [0], [0, 0]], ['par', [c, a], [1], [0, 0]], ['par', [a, c], [2, 0, 1], [0, 2]],
+                     ['par', [a, c], [3, 1], [3, 0]]]
+            n += 1
+            yield dict(kind='hist', steps=steps)
 
 
 def _hist_strategy(routes):
@@ -951,9 +1119,74 @@ def _hist_strategy(routes):
         def live():
             return [i for i, b in enumerate(bats) if b is not None]
 
-        def req(u, b, how=None):
+        def mkreq(u, b, how=None):
             how = how or pick(['get', 'get', 'core', 'mut'])
-            steps.append(['req', u, pick(gets if how == 'get' else core if how == 'core' else muts), b, pick([0, 0, 1])])
+            return ['req', u, pick(gets if how == 'get' else core if how == 'core' else muts), b, pick([0, 0, 1])]
+
+        def req(u, b, how=None):
+            steps.append(mkreq(u, b, how))
+
+        def par_group(mode=None, b=None, out=None):
+            """two or three requests in flight at once, laid out on purpose: most groups pair DIFFERENT users on the SAME batch, one of
+            them a member of its billing project and one not (membership is arranged first, by construction)"""
+            mode = mode or pick(['mvs', 'mvs', 'mvs', 'mvs', 'members', 'same_user', 'diff', 'refused', 'race', 'free'])
+            b = pick(live()) if b is None else b
+            bp = bats[b][1]
+            if out is None:
+                outs = [u for u in H_PLAIN if u not in mem[bp]]
+                if not outs:
+                    change('remove', bp, pick([u for u in H_PLAIN if u != bats[b][0]]))
+                    outs = [u for u in H_PLAIN if u not in mem[bp]]
+                out = pick(outs)
+            ins = [u for u in H_PLAIN if u in mem[bp] and u != out]
+            if not ins:
+                change('add', bp, pick([u for u in H_PLAIN if u != out]))
+                ins = [u for u in H_PLAIN if u in mem[bp] and u != out]
+            a = pick(ins)
+            if mode == 'mvs':           # member and non-member, same batch
+                subs = [mkreq(a, b, pick(['get', 'core', 'mut'])), mkreq(out, b, pick(['get', 'core', 'mut', 'mut']))]
+            elif mode == 'members':     # two different members (or the member twice over bearer and cookie), same batch
+                a2 = pick(ins)
+                subs = [mkreq(a, b), mkreq(a2, b)]
+            elif mode == 'same_user':
+                u = pick([a, out])
+                subs = [mkreq(u, b), mkreq(u, b)]
+            elif mode == 'diff':        # different users, different batches
+                subs = [mkreq(a, b), mkreq(out, pick(live()))]
+            elif mode == 'refused':     # mutations by callers who must all be refused
+                o2 = pick([u for u in H_USERS if u not in mem[bp] or u == 'ina'])
+                subs = [mkreq(out, b, 'mut'), pick([mkreq(o2, b, 'mut'), ['own', o2, b], ['try_admin', o2, 'add', bp, o2, pick([0, 1])]])]
+            elif mode == 'race':        # the developer changes the membership of a user whose request is in flight (either order accepted)
+                u = pick([a, out])
+                subs = [['member', 'remove' if u in mem[bp] else 'add', bp, u, pick(['api_dev', 'api_auth', 'ui_dev'])], mkreq(u, b),
+                        mkreq(out if u == a else a, b)]
+                (mem[bp].discard if u in mem[bp] else mem[bp].add)(u)
+            else:
+                subs = [mkreq(pick(H_USERS), pick(live())), mkreq(pick(H_USERS), pick(live()))]
+            if len(subs) < 3 and pick([0, 0, 1]):
+                u = pick(H_USERS)
+                k = pick(['req', 'req_same', 'own', 'bpread', 'list', 'try_admin', 'create'])
+                if k == 'req':
+                    subs.append(mkreq(u, pick(live())))
+                elif k == 'req_same':
+                    subs.append(mkreq(u, b))
+                elif k == 'own':
+                    subs.append(['own', u, b])
+                elif k == 'bpread':
+                    subs.append(['bpread', u, bp])
+                elif k == 'list' and lists:
+                    subs.append(['list', u, pick(lists)])
+                elif k == 'try_admin':
+                    subs.append(['try_admin', u, pick(['add', 'remove']), bp, pick(H_USERS), pick([0, 1])])
+                elif k == 'create':
+                    subs.append(['create', u, bp, pick([0, 1])])
+            subs = list(draw(st.permutations(subs)))
+            for x in subs:
+                if x[0] == 'create':
+                    bats.append((x[1], x[2]) if x[1] in mem[x[2]] else None)
+            sched = draw(st.lists(st.integers(0, 4), max_size=8))
+            starts = draw(st.lists(st.integers(0, 6), min_size=len(subs), max_size=len(subs)))
+            steps.append(['par', subs, sched, starts])
 
         def change(op, bp, u):
             steps.append(['member', op, bp, u, pick(['api_dev', 'api_auth', 'ui_dev', 'db'])])
@@ -966,9 +1199,12 @@ def _hist_strategy(routes):
 
         def noise(n, avoid=None, gentle=False):
             for _ in range(n):
-                k = pick(['req', 'req', 'req', 'create', 'member', 'tick', 'list', 'bpread', 'own', 'try_admin', 'missing', 'state'])
+                k = pick(['req', 'req', 'req', 'create', 'member', 'tick', 'list', 'bpread', 'own', 'try_admin', 'missing', 'state', 'par'])
                 u = pick([x for x in H_USERS if x != avoid])
-                if k == 'req':
+                if k == 'par':
+                    if not gentle:
+                        par_group()
+                elif k == 'req':
                     req(u, pick(live()), 'get' if gentle else None)
                 elif k == 'create':
                     create(u, pick(H_BPS))
@@ -1036,9 +1272,24 @@ def _hist_strategy(routes):
             create(s[1], s[2], s[3])
         noise(pick([0, 0, 1, 2]))
         for _ in range(pick([1, 1, 2])):
-            shape = pick(['revoke', 'revoke', 'revoke', 'grant', 'grant', 'flap', 'create', 'bpread', 'account', 'free'])
+            shape = pick(['revoke', 'revoke', 'revoke', 'grant', 'grant', 'flap', 'create', 'bpread', 'account', 'free',
+                          'par', 'par', 'par', 'revoke_par'])
             u = pick(H_PLAIN)
-            if shape in ('revoke', 'grant', 'flap'):
+            if shape == 'par':
+                for _ in range(pick([1, 1, 2, 3])):
+                    par_group()
+                    gap((None, None, None, 1, 250, 12000))
+            elif shape == 'revoke_par':
+                # a user who has just lost access and a member, in flight together on that batch: the first retry after the revocation
+                b = pick(live())
+                bp = bats[b][1]
+                if u not in mem[bp]:
+                    change('add', bp, u)
+                req(u, b, 'get')                    # granted
+                change('remove', bp, u)
+                gap()
+                par_group('mvs', b, u)
+            elif shape in ('revoke', 'grant', 'flap'):
                 b = pick(live())
                 if shape == 'revoke':
                     revoke(u, b)
@@ -1081,7 +1332,7 @@ def plan(tier):
     n = 800 if tier == 'quick' else 30000
     nh = 80 if tier == 'quick' else 8000
     return ([dict(kind='enum', part=i, nparts=12) for i in range(12)] + [dict(kind='hyp', n=n) for _ in range(4)]
-            + [dict(kind='hist_enum')] + [dict(kind='hist', n=nh) for _ in range(6)])
+            + [dict(kind='hist_enum'), dict(kind='hist_par_enum')] + [dict(kind='hist', n=nh) for _ in range(6)])
 
 
 def _strategy(routes):
@@ -1135,10 +1386,10 @@ def run_shard(spec, seed, tier):
             res.notes['routes_enumerated'] = len(mine)
             res.notes['world_builds'] = ctx.builds
             return res
-        if spec['kind'] == 'hist_enum':
-            for case in enum_histories(routes):
+        if spec['kind'] in ('hist_enum', 'hist_par_enum'):
+            for case in (enum_histories if spec['kind'] == 'hist_enum' else enum_par_histories)(routes):
                 nt, cls, fl = run_history(ctx, case)
-                res.case(case, nt, list(cls) + ['kind_history_systematic'])
+                res.case(case, nt, list(cls) + ['kind_history_systematic' if spec['kind'] == 'hist_enum' else 'kind_history_systematic_in_flight'])
                 for s, c, m in fl:
                     res.fail(s, c, m, case)
             res.notes['world_builds'] = ctx.builds
